@@ -76,15 +76,17 @@ func StatBlobsParallelHelper(ctx context.Context, blobs []blob.Ref, fn func(blob
 	var wg syncutil.Group
 Blobs:
 	for i := range blobs {
-		gate.Start()
 		b := blobs[i]
 
+		// Check before taking a slot of the gate: a slot taken here
+		// is only given back by the worker started below.
 		select {
 		case <-ctx.Done():
 			// If a previous failed, stop.
 			break Blobs
 		default:
 		}
+		gate.Start()
 
 		wg.Go(func() error {
 			defer gate.Done()
